@@ -266,6 +266,14 @@ MODELLED = {
     ("comm.py", "CommHandler.channels_default_cfg"): {},
     ("comm.py", "CommHandler._ch_divider_default"): {},
     ("comm.py", "CommHandler._channels_init"): {},
+    ("thread.py", "ThreadCommon.__init__"): {},
+    ("thread.py", "ThreadCommon._stop_is_set"): {},
+    ("thread.py", "ThreadCommon._thread_loop"): {},
+    ("thread.py", "ThreadCommon._stop_clear"): {},
+    ("thread.py", "ThreadCommon.stop_set"): {},
+    ("thread.py", "ThreadCommon.thread_is_alive"): {},
+    ("thread.py", "ThreadCommon.thread_stop"): {},
+    ("thread.py", "ThreadCommon.thread_start"): {},
     ("intf/iintf.py", "CommInterfaceCommon.data_align"): {0: "align_pad_byte"},
     ("intf/iintf.py", "CommInterfaceCommon.write"): {},
     ("intf/iintf.py", "CommInterfaceCommon.read"): {},
@@ -280,6 +288,7 @@ MODELLED = {
 DEPENDS = {
     "C01": ["SerialFrame."],
     "C02": ["SerialFrame.", "ParseRecv.recv_handle", "ParseRecv._recv_cb"],
+    "C13": ["ThreadCommon."],
     "C03": ["CommHandler._read_hdr", "CommHandler._read_frame", "CommHandler._recv_thread", "SerialFrame."],
     "C07": ["CommHandler._nxslib_channels", "CommHandler._channel_", "CommHandler._get_ack", "CommHandler.channels_",
             "CommHandler.ch_", "CommHandler._ch_divider_default", "CommHandler._channels_init"],
